@@ -33,6 +33,9 @@ package collect
 //                                          reload signal, quiesce
 //   e.DryRunAt(step), e.DryRunOnThroughout(a,b)  DryRun setting in force per step (Reload may toggle MockConfig.DryRun)
 //   e.Eject(worker, bytes)                 the sendEarly message checkAlloc would send (worker<0: all)
+//   e.TickWithFullOutgoingQueue()          process the next send tick while tracesToSend is completely full and the
+//                                          upstream blocks (fillers + recorder gate), then release and quiesce
+//   e.InstallSlowShim(env, seed, maxMs)    wrap env's real sampler: every decision advances the FakeClock by 0..maxMs ms
 //   e.Flush()                              bounded progress: TraceTimeout+SendDelay+backlog ticks
 //   e.Inspect(func(*E1View))               run fn while ALL workers are parked between loop
 //                                          iterations: buffered traces, CheckTrace, buffer counts
@@ -123,6 +126,22 @@ func e1adPushSentinel(c *InMemCollector, tr *types.Trace) {
 }
 
 func e1adOutgoingLen(c *InMemCollector) int { return len(c.tracesToSend) }
+func e1adOutgoingCap(c *InMemCollector) int { return cap(c.tracesToSend) }
+
+// e1adTryPushOutgoing queues a ready-made trace for sendTraces without blocking.
+func e1adTryPushOutgoing(c *InMemCollector, tr *types.Trace) bool {
+	select {
+	case c.tracesToSend <- sendableTrace{Trace: tr, reason: "verif-filler", sendReason: "verif-filler", shouldSend: true}:
+		return true
+	default:
+		return false
+	}
+}
+
+// e1adInjectSampler installs sampler s for samplerKey in worker w. Only while the worker is parked.
+func e1adInjectSampler(w *CollectorWorker, samplerKey string, s sample.Sampler) {
+	w.datasetSamplers[samplerKey] = s
+}
 
 // e1adEject sends the message checkAlloc sends and returns a channel closed when the worker is done.
 func e1adEject(ws []*CollectorWorker, bytes int) <-chan struct{} {
@@ -183,6 +202,7 @@ func e1TuneRuntime(run *verifkit.Run) func() {
 const (
 	e1FieldID       = "verif.id"
 	e1FieldSentinel = "verif.sentinel"
+	e1FieldFiller   = "verif.filler"
 	e1APIKey        = "verif-key-not-legacy-0001" // not 32 hex / 64 classic ⇒ sampler key = environment
 	e1APIHost       = "http://upstream.verif.invalid"
 	e1Watchdog      = 30 * time.Second
@@ -202,6 +222,7 @@ type E1Config struct {
 	AddHostMeta   bool
 	Attributes    map[string]string
 	Samplers      map[string]*config.V2SamplerChoice // by environment; "__default__" is added (deterministic 1) if absent
+	HealthTimeout time.Duration                      // Collection.HealthCheckTimeout; 0 ⇒ 1h (never reached)
 }
 
 // E1Span describes one span the driver hands to the collector.
@@ -396,6 +417,27 @@ type e1Recorder struct {
 	mu       sync.Mutex
 	events   []E1Event
 	sentinel chan int64
+	gate     chan struct{} // non-nil while the upstream is stalled: every Enqueue call blocks until it is closed
+	blocked  atomic.Int64  // Enqueue calls currently (or ever) held at the gate
+	fillers  atomic.Int64  // filler events swallowed
+}
+
+func e1OrHour(d time.Duration) time.Duration {
+	if d <= 0 {
+		return time.Hour
+	}
+	return d
+}
+
+// hold blocks the caller while the upstream is stalled (a Transmission whose queue is full blocks like this).
+func (r *e1Recorder) hold() {
+	r.mu.Lock()
+	g := r.gate
+	r.mu.Unlock()
+	if g != nil {
+		r.blocked.Add(1)
+		<-g
+	}
 }
 
 func e1DeepCopy(v any) any {
@@ -420,6 +462,11 @@ func e1DeepCopy(v any) any {
 }
 
 func (r *e1Recorder) record(via string, ev *types.Event, traceID string, isRoot bool) {
+	r.hold()
+	if ev.Data.Get(e1FieldFiller) != nil {
+		r.fillers.Add(1)
+		return
+	}
 	if v := ev.Data.Get(e1FieldSentinel); v != nil {
 		if n, ok := v.(int64); ok {
 			r.sentinel <- n
@@ -481,6 +528,7 @@ type E1 struct {
 	failed  string
 	stopped bool
 	hooks   []func(*E1View)
+	slow    []*e1SlowShim
 	dryLog  []e1DryAt // DryRun value and the step of the reload that set it (entry 0: start value)
 	parked  []chan struct{}
 }
@@ -520,7 +568,7 @@ func e1Start(tb testing.TB, c E1Config) *E1 {
 			WorkerCount:        c.Workers,
 			IncomingQueueSize:  c.IncomingQueue,
 			PeerQueueSize:      c.PeerQueue,
-			HealthCheckTimeout: config.Duration(time.Hour),
+			HealthCheckTimeout: config.Duration(e1OrHour(c.HealthTimeout)),
 			ShutdownDelay:      config.Duration(time.Millisecond),
 		},
 		SampleCache: config.SampleCacheConfig{
@@ -1114,6 +1162,147 @@ func (e *E1) Eject(worker int, bytes int) {
 	e.quiesce(0)
 }
 
+// TickWithFullOutgoingQueue advances the clock onto the next send tick while the collector's outgoing queue
+// (tracesToSend, 100 000 slots) is COMPLETELY full because the upstream Transmission does not take anything:
+//  1. the recorder's gate is closed (every Enqueue call blocks, like a Transmission whose own queue is full);
+//  2. one filler trace is queued and sendTraces is seen blocked inside EnqueueSpan with it;
+//  3. cap(tracesToSend) more fillers are queued (one shared one-span trace; the recorder swallows fillers) — full;
+//  4. the clock moves onto the tick; the workers decide what is due and hand it to send(). A correct collector
+//     blocks there until there is room;
+//  5. after the workers had time to attempt every hand-over, the gate is opened, everything drains, and the step
+//     quiesces as usual.
+//
+// Traces decided in this step are reported by the recorder with this step's index.
+func (e *E1) TickWithFullOutgoingQueue() {
+	if e.failed != "" {
+		return
+	}
+	e.syncTicks()
+	next := e.t0.Add(time.Duration(e.ticksDone+1) * e.tick)
+	if pre := next.Sub(e.clock.Now()); pre > e.tick {
+		e.fail("TickWithFullOutgoingQueue: clock is more than one tick before the next tick")
+		return
+	}
+	e.beginStep()
+	e.logOp("stalled-tick", next.Sub(e.t0).String())
+	filler := &types.Trace{TraceID: "verif-filler", APIKey: e1APIKey, Dataset: "verif-filler"}
+	filler.AddSpan(&types.Span{TraceID: "verif-filler", Event: &types.Event{APIHost: e1APIHost, APIKey: e1APIKey, Dataset: "verif-filler", Timestamp: e1Epoch,
+		Data: types.NewPayload(e.cfgW, map[string]any{e1FieldFiller: true})}})
+	g := make(chan struct{})
+	e.rec.mu.Lock()
+	e.rec.gate = g
+	e.rec.mu.Unlock()
+	open := func() {
+		e.rec.mu.Lock()
+		if e.rec.gate != nil {
+			close(e.rec.gate)
+			e.rec.gate = nil
+		}
+		e.rec.mu.Unlock()
+	}
+	b0 := e.rec.blocked.Load()
+	if !e1adTryPushOutgoing(e.coll, filler) || !e.waitFor("sendTraces blocked in the stalled transmission", func() bool { return e.rec.blocked.Load() > b0 }) {
+		open()
+		e.fail("could not stall sendTraces")
+		return
+	}
+	for n := e1adOutgoingCap(e.coll); n > 0; n-- {
+		if !e1adTryPushOutgoing(e.coll, filler) {
+			break
+		}
+	}
+	if e1adOutgoingLen(e.coll) != e1adOutgoingCap(e.coll) {
+		open()
+		e.fail("could not fill the outgoing queue")
+		return
+	}
+	_, applied0 := e.DecisionCounts()
+	e.clock.Advance(max(next.Sub(e.clock.Now()), 0))
+	e.ticksDone++
+	e.ticks = append(e.ticks, E1Tick{Step: e.Step(), At: next.Sub(e.t0)})
+	// let the workers reach send(): at least one decision applied (bounded), then give them time for the rest
+	for i := 0; i < 20000; i++ {
+		if _, a := e.DecisionCounts(); a > applied0 {
+			break
+		}
+		if i < 2000 {
+			runtime.Gosched()
+		} else {
+			time.Sleep(20 * time.Microsecond)
+		}
+	}
+	for i := 0; i < 400; i++ {
+		runtime.Gosched()
+	}
+	time.Sleep(2 * time.Millisecond)
+	e.logOp("stalled-tick-release", map[string]any{"outgoing_len": e1adOutgoingLen(e.coll), "fillers_swallowed": e.rec.fillers.Load()})
+	open()
+	e.quiesce(next.UnixNano())
+}
+
+// e1SlowShim wraps a real sampler and "takes" fake time per decision by advancing the shared FakeClock.
+type e1SlowShim struct {
+	inner sample.Sampler
+	clock *clockwork.FakeClock
+	mu    sync.Mutex
+	rng   *verifkit.Rand
+	maxMs int
+	Calls int
+	Spent time.Duration
+}
+
+func (s *e1SlowShim) Start() error                       { return nil }
+func (s *e1SlowShim) GetKeyFields() ([]string, []string) { return s.inner.GetKeyFields() }
+func (s *e1SlowShim) GetSampleRate(tr *types.Trace) (uint, bool, string, string) {
+	s.mu.Lock()
+	d := time.Duration(s.rng.Range(0, s.maxMs)) * time.Millisecond
+	s.Calls++
+	s.Spent += d
+	s.mu.Unlock()
+	if d > 0 {
+		s.clock.Advance(d)
+	}
+	return s.inner.GetSampleRate(tr)
+}
+
+// InstallSlowShim wraps the real sampler of environment env (built by the real SamplerFactory) in every worker
+// with a shim that advances the FakeClock by 0..maxMs ms per decision. Only sound for single-worker collectors
+// and timing-insensitive oracles (see notes/C02.md, slow decisions). A reload removes the shim.
+func (e *E1) InstallSlowShim(env string, seed uint64, maxMs int) {
+	if e.failed != "" {
+		return
+	}
+	e.logOp("slow-shim", map[string]any{"env": env, "max_ms": maxMs})
+	shim := &e1SlowShim{clock: e.clock, rng: verifkit.NewRand(seed), maxMs: maxMs}
+	e.Inspect(func(*E1View) {
+		shim.inner = e.sf.GetSamplerImplementationForKey(env)
+		if shim.inner == nil {
+			return
+		}
+		for _, w := range e1adWorkers(e.coll) {
+			e1adInjectSampler(w, env, shim)
+		}
+	})
+	if shim.inner == nil {
+		e.fail("slow shim: sampler factory returned no sampler")
+		return
+	}
+	e.slow = append(e.slow, shim)
+}
+
+// SlowSpent reports the fake time all installed slow shims have consumed and the number of decisions they saw.
+func (e *E1) SlowSpent() (time.Duration, int) {
+	var d time.Duration
+	n := 0
+	for _, s := range e.slow {
+		s.mu.Lock()
+		d += s.Spent
+		n += s.Calls
+		s.mu.Unlock()
+	}
+	return d, n
+}
+
 // EffectiveTimes returns SendDelay and TraceTimeout with Refinery's documented zero defaults applied.
 func (e *E1) EffectiveTimes() (sendDelay, traceTimeout time.Duration) {
 	tc := e.Cfg.GetTracesConfig()
@@ -1503,6 +1692,7 @@ type e1Step struct {
 	Worker int
 	Bytes  int
 	Flag   string
+	Seed   uint64 // slow-shim: PRNG seed of the shim
 }
 
 func e1PerWorker(total uint, workers int) int {
@@ -1692,6 +1882,12 @@ func (h *E1History) Run(tb testing.TB, onStart func(e *E1), onStep func(e *E1, s
 			e.Reload(fmt.Sprintf("resize kept=%d", ks), func(m *config.MockConfig) { m.SampleCache.KeptSize = ks })
 		case "eject":
 			e.Eject(st.Worker, st.Bytes)
+		case "stalled-tick":
+			e.TickWithFullOutgoingQueue()
+		case "slow-shim":
+			e.InstallSlowShim(st.Env, st.Seed, st.Bytes)
+		case "loose":
+			e.quiesceLoose()
 		}
 		if onStep != nil && e.Failed() == "" {
 			onStep(e, st)
@@ -1747,4 +1943,112 @@ func (h *E1History) Abstract(f *E1Final) (sig string, late, keptTraces, droppedT
 	sig = fmt.Sprintf("w%d %v sl%d me%d lk%d k%d d%d ej%d rl%d rs%d b%d", h.Cfg.Workers, kinds, h.Cfg.Traces.SpanLimit, h.Cfg.Traces.MaxExpiredTraces,
 		bucket(lateKept), bucket(keptTraces), bucket(droppedTraces), bucket(ops["eject"]), bucket(ops["reload-sampler"]+ops["reload-flags"]), bucket(ops["resize"]), bucket(ops["burst"]))
 	return sig, lateKept + lateDropped, keptTraces, droppedTraces
+}
+
+// -------------------------------------------------------------------------------------
+// Shared workload: stalled upstream and slow decisions (step lists for E1History.Run)
+// -------------------------------------------------------------------------------------
+
+func e1KeepFieldDef() E1SamplerDef {
+	return E1SamplerDef{Kind: "rules-keep-field", Choice: &config.V2SamplerChoice{RulesBasedSampler: &config.RulesBasedSamplerConfig{Rules: []*config.RulesBasedSamplerRule{
+		{Name: "keep-marked", SampleRate: 1, Conditions: []*config.RulesBasedSamplerCondition{e1Cond("verif.keep", "=", "yes")}},
+		{Name: "drop-rest", Drop: true},
+	}}}, Predict: func(_ string, k bool) (bool, bool) { return k, true }}
+}
+
+// e1GenStalledHistory: 6–14 rooted traces fall due at one tick; that tick is processed while the outgoing queue
+// is completely full and the upstream takes nothing (TickWithFullOutgoingQueue). Afterwards late spans for the
+// traces, a few new traces, and the normal flush.
+func e1GenStalledHistory(rng *verifkit.Rand, dryRun bool) *E1History {
+	tick := 100 * time.Millisecond
+	def := e1KeepFieldDef()
+	h := &E1History{Defs: map[string]E1SamplerDef{"env-a": def, "env-b": def}, MinKept: 10000, Profile: E1Profile{DryRun: dryRun, PredictableOnly: true}}
+	h.Cfg = E1Config{Workers: rng.Range(1, 3), DryRun: dryRun, AddRuleReason: rng.Bool(),
+		Traces:   config.TracesConfig{SendTicker: config.Duration(tick), SendDelay: config.Duration(300 * time.Millisecond), TraceTimeout: config.Duration(2 * time.Second)},
+		Samplers: map[string]*config.V2SamplerChoice{"env-a": def.Choice, "env-b": def.Choice}}
+	nextID := 0
+	mk := func(pl *e1TracePlan, kind string) E1Span {
+		nextID++
+		pl.Spans++
+		return E1Span{ID: fmt.Sprintf("s%d", nextID), Trace: pl.ID, Kind: kind, Peer: rng.Chance(0.3), Rate: pl.Rate, Env: pl.Env, Dataset: "ds-" + pl.Env,
+			Fields: map[string]any{"verif.keep": e1KeepValue(pl.Keep), "svc": pl.Svc, "n": int64(pl.Spans)}}
+	}
+	newPlan := func() *e1TracePlan {
+		pl := &e1TracePlan{ID: rng.Hex(32), Env: "env-a", Keep: rng.Chance(0.6), Svc: "api", Rate: uint(verifkit.Pick(rng, 0, 1, 2))}
+		h.Plans = append(h.Plans, pl)
+		return pl
+	}
+	var burst []E1Span
+	for j := rng.Range(6, 14); j > 0; j-- {
+		pl := newPlan()
+		for c := rng.Range(0, 2); c > 0; c-- {
+			burst = append(burst, mk(pl, "child"))
+		}
+		burst = append(burst, mk(pl, "root"))
+	}
+	first := len(h.Plans)
+	h.Steps = append(h.Steps, e1Step{Op: "burst", Held: true, Spans: burst})
+	h.Steps = append(h.Steps, e1Step{Op: "advance", Dur: 250 * time.Millisecond}) // ticks at 100 and 200 ms; everything is due at 300 ms
+	h.Steps = append(h.Steps, e1Step{Op: "stalled-tick"})
+	for _, pl := range h.Plans[:first] {
+		if rng.Chance(0.7) {
+			h.Steps = append(h.Steps, e1Step{Op: "span", Spans: []E1Span{mk(pl, verifkit.Pick(rng, "child", "child", "root"))}})
+		}
+	}
+	for j := rng.Range(0, 3); j > 0; j-- {
+		pl := newPlan()
+		h.Steps = append(h.Steps, e1Step{Op: "span", Spans: []E1Span{mk(pl, "root")}})
+	}
+	h.Steps = append(h.Steps, e1Step{Op: "advance", Dur: verifkit.Pick(rng, tick, 400*time.Millisecond)})
+	return h
+}
+
+// e1GenSlowHistory: single worker; every decision "takes" 0–300 ms of fake time (slow-shim); 8–16 traces fall due
+// at one tick (rooted: SendDelay; rootless: TraceTimeout); HealthCheckTimeout is small (2–4 s). Late spans for
+// the decided traces follow each overrunning pass.
+func e1GenSlowHistory(rng *verifkit.Rand) *E1History {
+	tick := 100 * time.Millisecond
+	def := e1GenSampler(rng, true)
+	h := &E1History{Defs: map[string]E1SamplerDef{"env-a": def}, MinKept: 10000, Profile: E1Profile{PredictableOnly: true}}
+	h.Cfg = E1Config{Workers: 1, AddRuleReason: rng.Bool(), HealthTimeout: time.Duration(verifkit.Pick(rng, 2, 3, 4)) * time.Second,
+		Traces: config.TracesConfig{SendTicker: config.Duration(tick), SendDelay: config.Duration(verifkit.Pick(rng, 200, 300) * int(time.Millisecond)),
+			TraceTimeout: config.Duration(verifkit.Pick(rng, 1000, 2000) * int(time.Millisecond)), MaxExpiredTraces: uint(verifkit.Pick(rng, 0, 0, 3000, 6))},
+		Samplers: map[string]*config.V2SamplerChoice{"env-a": def.Choice}}
+	nextID := 0
+	mk := func(pl *e1TracePlan, kind string) E1Span {
+		nextID++
+		pl.Spans++
+		return E1Span{ID: fmt.Sprintf("s%d", nextID), Trace: pl.ID, Kind: kind, Peer: rng.Chance(0.3), Rate: pl.Rate, Env: "env-a", Dataset: "ds",
+			Fields: map[string]any{"verif.keep": e1KeepValue(pl.Keep), "svc": "api", "n": int64(pl.Spans)}}
+	}
+	h.Steps = append(h.Steps, e1Step{Op: "slow-shim", Env: "env-a", Seed: rng.Uint64(), Bytes: 300})
+	var burst []E1Span
+	rooted := []*e1TracePlan{}
+	for j := rng.Range(8, 16); j > 0; j-- {
+		pl := &e1TracePlan{ID: rng.Hex(32), Env: "env-a", Keep: rng.Chance(0.7), Rate: uint(verifkit.Pick(rng, 0, 1, 2))}
+		h.Plans = append(h.Plans, pl)
+		for c := rng.Range(0, 2); c > 0; c-- {
+			burst = append(burst, mk(pl, "child"))
+		}
+		if rng.Chance(0.6) {
+			burst = append(burst, mk(pl, "root"))
+			rooted = append(rooted, pl)
+		} else {
+			burst = append(burst, mk(pl, "child"))
+		}
+	}
+	h.Steps = append(h.Steps, e1Step{Op: "burst", Held: true, Spans: burst})
+	h.Steps = append(h.Steps, e1Step{Op: "advance", Dur: time.Duration(h.Cfg.Traces.SendDelay) + tick}, e1Step{Op: "loose"})
+	for _, pl := range rooted {
+		if rng.Chance(0.7) {
+			h.Steps = append(h.Steps, e1Step{Op: "span", Spans: []E1Span{mk(pl, "child")}})
+		}
+	}
+	h.Steps = append(h.Steps, e1Step{Op: "advance", Dur: time.Duration(h.Cfg.Traces.TraceTimeout)}, e1Step{Op: "loose"})
+	for _, pl := range h.Plans {
+		if rng.Chance(0.6) {
+			h.Steps = append(h.Steps, e1Step{Op: "span", Spans: []E1Span{mk(pl, verifkit.Pick(rng, "child", "root"))}})
+		}
+	}
+	return h
 }
